@@ -1374,16 +1374,35 @@ func signCertificate(data *CreationBundle, randReader io.Reader) (*ParsedCertBun
 
 	caCert := data.SigningBundle.Certificate
 
+	notBefore := time.Now().Add(-30 * time.Second)
+
+	if data.Params.NotBeforeDuration > 0 && data.Params.NotBefore.IsZero() {
+		notBefore = time.Now().Add(-1 * data.Params.NotBeforeDuration)
+	} else if !data.Params.NotBefore.IsZero() {
+		notBefore = data.Params.NotBefore
+	}
+
+	// Verify that notBefore is older than notAfter.
+	if notBefore.After(data.Params.NotAfter) {
+		return nil, errutil.UserError{
+			Err: fmt.Sprintf("The certificate's Not Before (%v) is later than the certificate's Not After (%v)", notBefore.UTC().Format(time.RFC3339Nano), data.Params.NotAfter.UTC().Format(time.RFC3339Nano)),
+		}
+	}
+
+	// Disallow zero duration certificate.
+	if notBefore.Equal(data.Params.NotAfter) {
+		return nil, errutil.UserError{
+			Err: fmt.Sprintf("The certificate's Not Before (%v) is equal to the certificate's Not After (%v)", notBefore.UTC().Format(time.RFC3339Nano), data.Params.NotAfter.UTC().Format(time.RFC3339Nano)),
+		}
+	}
+
 	certTemplate := &x509.Certificate{
 		SerialNumber:   serialNumber,
 		Subject:        data.Params.Subject,
-		NotBefore:      time.Now().Add(-30 * time.Second),
+		NotBefore:      notBefore,
 		NotAfter:       data.Params.NotAfter,
 		SubjectKeyId:   subjKeyID[:],
 		AuthorityKeyId: caCert.SubjectKeyId,
-	}
-	if data.Params.NotBeforeDuration > 0 {
-		certTemplate.NotBefore = time.Now().Add(-1 * data.Params.NotBeforeDuration)
 	}
 
 	privateKeyType := data.SigningBundle.PrivateKeyType
